@@ -28,8 +28,16 @@
     c16.conc L W                      W clients FETCH NEXT a fresh cursor of L rows until each has seen "no row"
                                       (`runSched` over a round-robin schedule)      → handed h twice a never b foreign 0 none c end p
     c16.concq L M                     M FETCH NEXT steps by 8 clients in turn on a fresh cursor of L rows   → the same tally
+    c16.prog cond ;; id=row … ;; prog  a program around OPENs of cursors FOR a prepared statement `SELECT … FROM t WHERE cond`
+                                      (`CursorStmt.runP`, started with NO surrounding frame); cond in prefix form: gt H | lt H |
+                                      gtc n | and C C, H = ?k | :name; the rows of t now with their ids; prog: items
+                                      `O N v[@name] … ;` (OPEN N [USING v [AS name], …]) | `A stmt ;` (a statement as above) |
+                                      `X v[@name] … { prog }` (EXECUTE p USING …, p's statements in braces) |
+                                      `F { prog }` (a statement calling a function with this body) | `S { prog }` (SOURCE)
+                                      → trace `res | res | …` up to and including the first error (E13803: replace value not specified)
 -/
 import Csvq.Model.Cursor
+import Csvq.Model.CursorStmt
 namespace Csvq.Drive
 open Csvq Csvq.Cursor
 
@@ -195,6 +203,83 @@ def openReCmd (s : Scope String) (args : List String) : Option (Scope String × 
     | _, _, _ => none
   | _ => none
 
+/-! cursors FOR a prepared statement: `c16.prog` -/
+
+open Csvq.CursorStmt in
+def parseHolder (t : String) : Option Holder :=
+  match t.toList with
+  | '?' :: r => (String.ofList r).toNat?.map Holder.pos
+  | ':' :: r => some (Holder.named (String.ofList r))
+  | _ => none
+
+open Csvq.CursorStmt in
+partial def parseCond : List String → Option (Cond × List String)
+  | "gt" :: h :: rest => (parseHolder h).map fun h => (Cond.gtH h, rest)
+  | "lt" :: h :: rest => (parseHolder h).map fun h => (Cond.ltH h, rest)
+  | "gtc" :: n :: rest => n.toInt?.map fun n => (Cond.gtC n, rest)
+  | "and" :: rest =>
+    match parseCond rest with
+    | some (a, r1) =>
+      match parseCond r1 with
+      | some (b, r2) => some (Cond.and a b, r2)
+      | none => none
+    | none => none
+  | _ => none
+
+open Csvq.CursorStmt in
+def parseRV (t : String) : Option RV :=
+  match t.splitOn "@" with
+  | [v] => v.toInt?.map fun v => ⟨v, ""⟩
+  | [v, n] => v.toInt?.map fun v => ⟨v, n⟩
+  | _ => none
+
+open Csvq.CursorStmt in
+def parseRow (t : String) : Option Row :=
+  match t.splitOn "=" with
+  | [i, tok] => i.toInt?.map fun i => (i, tok)
+  | _ => none
+
+open Csvq.CursorStmt in
+partial def parseProg (c : Cond) : List String → Option (Prog × List String)
+  | [] => some (Prog.done, [])
+  | "}" :: rest => some (Prog.done, "}" :: rest)
+  | "O" :: n :: rest =>
+    match (rest.takeWhile (· ≠ ";")).mapM parseRV, parseProg c ((rest.dropWhile (· ≠ ";")).drop 1) with
+    | some us, some (p, r) => some (Prog.openC n c us p, r)
+    | _, _ => none
+  | "A" :: rest =>
+    match parseStmt (rest.takeWhile (· ≠ ";")), parseProg c ((rest.dropWhile (· ≠ ";")).drop 1) with
+    | some o, some (p, r) => some (Prog.act o p, r)
+    | _, _ => none
+  | k :: rest =>
+    if k = "X" || k = "F" || k = "S" then
+      match (rest.takeWhile (· ≠ "{")).mapM parseRV, parseProg c ((rest.dropWhile (· ≠ "{")).drop 1) with
+      | some us, some (body, "}" :: r1) =>
+        match parseProg c r1 with
+        | some (p, r) =>
+          if k = "X" then some (Prog.exec us body p, r)
+          else if !us.isEmpty then none
+          else if k = "F" then some (Prog.call body p, r) else some (Prog.source body p, r)
+        | none => none
+      | _, _ => none
+    else none
+
+open Csvq.CursorStmt in
+def showORes : ORes → String
+  | .res r => showRes r
+  | .notSpecified => "E13803"
+
+open Csvq.CursorStmt in
+def progCmd (s : Scope String) (args : List String) : Option (Scope String × String) :=
+  match splitBy ";;" args with
+  | [cond, rows, prog] =>
+    match parseCond cond, rows.mapM parseRow, (fun c => parseProg c prog) <$> (parseCond cond).map (·.1) with
+    | some (_, []), some table, some (some (p, [])) =>
+      let r := runP table [] [s] p
+      some (r.1.headD [], String.intercalate " | " (r.2.1.map showORes))
+    | _, _, _ => none
+  | _ => none
+
 partial def c16Loop (h out : IO.FS.Stream) (s : Scope String) : IO Unit := do
   let line ← h.getLine
   if line.isEmpty then return ()
@@ -209,6 +294,15 @@ partial def c16Loop (h out : IO.FS.Stream) (s : Scope String) : IO Unit := do
       if cmd = "conc" || cmd = "concq" then
         out.putStrLn ((conc cmd (args.filter (fun t => t ≠ ""))).getD "bad-op")
         c16Loop h out s
+      else
+      if cmd = "prog" then
+        match progCmd s (args.filter (fun t => t ≠ "")) with
+        | some (s', line) =>
+          out.putStrLn line
+          c16Loop h out s'
+        | none =>
+          out.putStrLn "bad-op"
+          c16Loop h out s
       else
       if cmd = "openre" then
         match openReCmd s (args.filter (fun t => t ≠ "")) with
